@@ -15,6 +15,7 @@ type simBlock struct {
 }
 
 type sim struct {
+	geth   bool
 	r      *lib.RNG
 	blocks []simBlock // canonical chain, index = L1 block number
 	fin    uint64
@@ -30,7 +31,7 @@ func (s *sim) newBlock() []Log {
 	var logs []Log
 	for i := 0; i < n; i++ {
 		h := s.nextL2*16 + s.fork%16
-		logs = append(logs, Log{L2: s.nextL2, Hash: h, Root: h + 0x1000, L1: num})
+		logs = append(logs, Log{L2: s.nextL2, Hash: h, Root: h + 0x1000, L1: num, OverP: s.geth && s.r.Chance(1, 8)})
 		s.nextL2++
 	}
 	s.blocks = append(s.blocks, simBlock{logs: logs})
@@ -45,8 +46,14 @@ func (s *sim) allLogs(from uint64) []Log {
 	return out
 }
 
-func genChainCase(r *lib.RNG, name string) *Case {
-	s := &sim{r: r, nextL2: uint64(r.Range(0, 3))}
+func genChainCase(r *lib.RNG, name string) *Case { return genSimCase(r, name, false) }
+
+// genGethCase: the same simulated L1 node, but served through the fake JSON-RPC node and the REAL
+// geth forwarding layer; reorgs (several per subscription) and connection drops are more frequent.
+func genGethCase(r *lib.RNG, name string) *Case { return genSimCase(r, name, true) }
+
+func genSimCase(r *lib.RNG, name string, geth bool) *Case {
+	s := &sim{r: r, nextL2: uint64(r.Range(0, 3)), geth: geth}
 	c := &Case{Name: name, Family: "chain", Mode: "run", FilterFailAt: -1, Canonical: true,
 		PollMicros: lib.Pick(r, []int{100, 200, 200, 400})}
 	n0 := r.Range(1, 12)
@@ -85,28 +92,34 @@ func genChainCase(r *lib.RNG, name string) *Case {
 			c.StoredL1 = l.L1
 		}
 	}
-	if r.Chance(1, 6) {
+	wAdvance, wFin, wReorg, wSub, wFinFail := 38, 63, 78, 86, 91
+	if geth {
+		c.Geth, c.Family = true, "geth"
+		c.PollMicros = lib.Pick(r, []int{300, 500})
+		wAdvance, wFin, wReorg, wSub, wFinFail = 30, 50, 82, 90, 93
+	}
+	if !geth && r.Chance(1, 6) {
 		c.FilterFailAt = r.Range(0, 3)
 	}
-	if r.Chance(1, 20) {
+	if !geth && r.Chance(1, 20) {
 		c.LatestFail = true
 	}
-	if r.Chance(1, 20) {
+	if !geth && r.Chance(1, 20) {
 		c.Fin1Fail = true
 	}
-	if r.Chance(1, 8) {
+	if !geth && r.Chance(1, 8) {
 		c.ChainIDFails = r.Range(1, 2)
 	}
-	if r.Chance(1, 40) {
+	if !geth && r.Chance(1, 40) {
 		c.ChainIDMismatch = true
 	}
-	if r.Chance(1, 6) {
+	if !geth && r.Chance(1, 6) {
 		c.Fin2Fails = r.Range(1, 2)
 	}
-	if r.Chance(1, 6) {
+	if !geth && r.Chance(1, 6) {
 		c.WatchFails = r.Range(1, 2)
 	}
-	if r.Chance(1, 7) {
+	if !geth && r.Chance(1, 7) {
 		c.Mode = "oneshot"
 		c.ChainIDFails = 0
 		return c
@@ -119,7 +132,7 @@ func genChainCase(r *lib.RNG, name string) *Case {
 	nops := r.Range(0, 12)
 	for i := 0; i < nops; i++ {
 		switch x := r.Intn(100); {
-		case x < 38: // advance
+		case x < wAdvance: // advance
 			var logs []Log
 			for k := r.Range(1, 3); k > 0; k-- {
 				logs = append(logs, s.newBlock()...)
@@ -128,11 +141,11 @@ func genChainCase(r *lib.RNG, name string) *Case {
 				c.Ops = append(c.Ops, Op{Kind: "send", Logs: logs})
 			}
 			maybeSync()
-		case x < 63: // finalise
+		case x < wFin: // finalise
 			s.fin = uint64(r.Range(int(s.fin), int(s.latest())))
 			c.Ops = append(c.Ops, Op{Kind: "fin", Fin: s.fin})
 			maybeSync()
-		case x < 78: // reorg above the finalised height
+		case x < wReorg: // reorg above the finalised height
 			if s.latest() <= s.fin {
 				continue
 			}
@@ -178,10 +191,10 @@ func genChainCase(r *lib.RNG, name string) *Case {
 				}
 			}
 			maybeSync()
-		case x < 86: // subscription error
+		case x < wSub: // subscription error
 			c.Ops = append(c.Ops, Op{Kind: "suberr", N: r.Range(0, 2)})
 			maybeSync()
-		case x < 91: // failing finalised-height polls
+		case x < wFinFail: // failing finalised-height polls
 			c.Ops = append(c.Ops, Op{Kind: "finfail", N: r.Range(1, 3)}, Op{Kind: "sync"})
 		default: // late delivery / replay of older canonical logs (e.g. after a resubscription)
 			all := s.allLogs(0)
@@ -206,6 +219,75 @@ func genChainCase(r *lib.RNG, name string) *Case {
 			c.Ops = append(c.Ops, Op{Kind: "sync"})
 		}
 	}
+	return c
+}
+
+// gethDirected: several reorgs on ONE subscription, the later ones at or above the height of the
+// first, removed logs in bursts, replacement blocks without logs, then finality moves past the
+// reorged blocks: any removal notice the forwarding layer loses turns into a removed commit being
+// recorded as L1 head.
+func gethDirected(r *lib.RNG, name string) *Case {
+	c := &Case{Name: name, Family: "geth", Geth: true, Mode: "run", FilterFailAt: -1, Canonical: true,
+		Chunk: lib.Pick(r, []uint64{1, 3, 1000}), PollMicros: 300}
+	base := uint64(r.Range(2, 6)) // last block before the action; everything at or below is final
+	l2 := uint64(r.Range(1, 4))
+	mk := func(l1, fork uint64) Log {
+		h := l2*16 + fork%16
+		l := Log{L2: l2, Hash: h, Root: h + 0x1000, L1: l1, OverP: r.Chance(1, 8)}
+		l2++
+		return l
+	}
+	first := mk(uint64(r.Range(0, int(base))), 0)
+	c.Hist = []Log{first}
+	c.Latest, c.Fin1, c.Fin2 = base, base, base
+	fin := base
+	var fork uint64
+	rounds := r.Range(2, 4)
+	height := base + uint64(r.Range(1, 2)) // height of the first reorged block
+	top := base
+	for i := 0; i < rounds; i++ {
+		// a burst of blocks with logs on the current fork …
+		startL2 := l2
+		var burst []Log
+		nb := r.Range(1, 3)
+		for b := 0; b < nb; b++ {
+			for k := r.Range(1, 2); k > 0; k-- {
+				burst = append(burst, mk(height+uint64(b), fork))
+			}
+		}
+		top = height + uint64(nb) - 1
+		c.Ops = append(c.Ops, Op{Kind: "send", Logs: burst})
+		if r.Chance(1, 3) {
+			c.Ops = append(c.Ops, Op{Kind: "sync"})
+		}
+		if i == rounds-1 && r.Chance(1, 3) {
+			break // last fork survives
+		}
+		// … reorged away: removal notices for all of them, in one burst
+		removed := make([]Log, len(burst))
+		for k, l := range burst {
+			l.Removed = true
+			removed[k] = l
+		}
+		if r.Bool() {
+			for a, b := 0, len(removed)-1; a < b; a, b = a+1, b-1 {
+				removed[a], removed[b] = removed[b], removed[a]
+			}
+		}
+		c.Ops = append(c.Ops, Op{Kind: "send", Logs: removed})
+		l2 = startL2
+		fork++
+		if r.Chance(1, 6) {
+			c.Ops = append(c.Ops, Op{Kind: "suberr"})
+		}
+		// the next reorg happens at the same height or above
+		height += uint64(r.Range(0, 2))
+	}
+	if top < height {
+		top = height
+	}
+	fin = top + uint64(r.Range(0, 2))
+	c.Ops = append(c.Ops, Op{Kind: "sync"}, Op{Kind: "fin", Fin: fin}, Op{Kind: "sync"})
 	return c
 }
 
